@@ -101,7 +101,7 @@ class Scenario:
 
 
 def container_scenario(ch, max_records=12, top="any", serial=True, logical=False, hints=False,
-                       big=False, size_profiles=False):
+                       big=False, size_profiles=False, wide=True):
     sc = Scenario()
     if size_profiles and ch.chance(4):
         # swarm: size profile -- thousands of tiny records (multi-byte block counts, many blocks)
@@ -129,7 +129,7 @@ def container_scenario(ch, max_records=12, top="any", serial=True, logical=False
         sc.gstats = {}
     else:
         sc.schema, sc.gstats = gen.schema(ch, top=top, serial_field=serial, max_depth=2 + ch.draw(2),
-                                          max_fields=4)
+                                          max_fields=4, wide=wide)
     sc.node = refavro.resolve(sc.schema)
     dg = gen.DataGen(ch, hints=hints, big_collections=big, max_len=3)
     nrec = ch.weighted([1, 2, 6])
